@@ -5,7 +5,8 @@
 (* scripts.ndjson holds one script per line:                               *)
 (*   {"stack": id, "cap": c, "dttl": d,                                    *)
 (*    "ops": [{"name": ..., "w": view, "keys": [...], "vals": [...],       *)
-(*             "ttl": seconds (advance: the delta)}, ...]}                 *)
+(*             "ttl": seconds (advance: the delta),                        *)
+(*             "fail": the backend call of this operation fails}, ...]}    *)
 (* The only thing taken from the script is WHICH operation is performed    *)
 (* next; what it does, what it replies and what the backend holds          *)
 (* afterwards are CacheStack's own actions.  Where an action is            *)
@@ -20,7 +21,7 @@ VARIABLE sid       \* which script this behaviour follows
 
 Scripts == ndJsonDeserialize("scripts.ndjson")
 
-svars == <<conf, lru, bk, last, ownLeft, retLeft, foreign, op, hist, pk, sid>>
+svars == <<conf, lru, bk, last, ownLeft, retLeft, foreign, limbo, op, hist, pk, sid>>
 
 ScriptInit ==
   /\ sid \in 1..Len(Scripts)
@@ -28,11 +29,11 @@ ScriptInit ==
   /\ conf = [stack |-> Scripts[sid].stack, cap |-> Scripts[sid].cap, dttl |-> Scripts[sid].dttl]
 
 Do(o) ==
-  CASE o.name \in {"set", "setasync"} -> Set(o.name, o.w, o.keys[1], o.vals[1], o.ttl)
-    [] o.name = "setmulti" -> SetMulti(o.w, o.keys, o.vals, o.ttl)
-    [] o.name = "add"      -> Add(o.w, o.keys[1], o.vals[1], o.ttl)
-    [] o.name = "get"      -> Get(o.w, o.keys)
-    [] o.name = "delete"   -> Delete(o.w, o.keys[1])
+  CASE o.name \in {"set", "setasync"} -> Set(o.name, o.w, o.keys[1], o.vals[1], o.ttl, o.fail)
+    [] o.name = "setmulti" -> SetMulti(o.w, o.keys, o.vals, o.ttl, o.fail)
+    [] o.name = "add"      -> Add(o.w, o.keys[1], o.vals[1], o.ttl, o.fail)
+    [] o.name = "get"      -> Get(o.w, o.keys, o.fail)
+    [] o.name = "delete"   -> Delete(o.w, o.keys[1], o.fail)
     [] o.name = "advance"  -> Advance(o.ttl)
     [] o.name = "poke"     -> Poke(o.w, o.keys[1], o.ttl)
 
